@@ -310,7 +310,11 @@ COMMON_VALUES = [b"v", b"verif/1.0", b"0123456789abcdef0123456789abcdef", b"a=b;
 
 
 def gen_value(s):
-    k = s.weighted([6, 3, 1, 1, 1, 1, 1])
+    k = s.weighted([6, 3, 1, 1, 1, 1, 1, 2])
+    if k == 7:  # legal boundary bytes in first / last position (only SP and HTAB are forbidden there), also alone
+        edge = (0x01, 0x08, 0x0B, 0x0C, 0x0E, 0x1C, 0x1F, 0x21, 0x7E, 0x7F, 0x80, 0x85, 0xA0, 0xFF)
+        a, b = edge[s.choose(len(edge))], edge[s.choose(len(edge))]
+        return (bytes([a]), bytes([a, b]), bytes([a]) + b"mid dle" + bytes([b]))[s.choose(3)]
     if k == 0:
         return COMMON_VALUES[s.choose(len(COMMON_VALUES))]
     if k == 1:  # unique short value (literal, then dynamic when repeated)
